@@ -26,9 +26,38 @@ def main():
                           "front-end facts: booked (name, depth, element kind) list equals the reference schema, tree name booked = filled = descriptor, "
                           "descriptor file name equals the file the backend's runner delivers; label/column count mismatch must raise")
     cleanup_scratch()
+    # "the output file name in the descriptor is the one the generated job actually writes": at the level of the run script the
+    # file delivered on every exit-0 path is <destination directory>/<descriptor file name> (or the file -o names), whatever the
+    # destination held before (engine D, the C16 shell model; only the delivery clauses are taken)
+    import json
+    from ..common import REPLAYS, pmap
+    from . import C16
+    hists = [[[]], [["o"]], [["d", "o"]], [["c"], ["r", "o"]], [["r", "d", "o"], ["r", "d", "o"]]]
+    items = [(b, h, False, 6) for b in C16.SCRIPTS for h in hists]
+    shell = {"histories": len(items), "violations": 0, "inconclusive": 0}
+    for it, r in zip(items, pmap(C16.analyse_history, items, a.jobs)):
+        rep.obligations += 1
+        if "__error__" in r or r.get("unsupported"):
+            shell["inconclusive"] += 1
+            rep.inconc(f"runner.sh {it[0]} {it[1]}", r.get("__error__") or ("outside bash subset: " + r["unsupported"]))
+            continue
+        bad = [v for v in r["violations"] if "where the output was delivered" in v["clause"] or "default destination" in v["clause"] or "delivered INSIDE" in v["clause"]]
+        if not bad and r.get("truncated"):
+            shell["inconclusive"] += 1
+            rep.inconc(f"runner.sh {it[0]} {it[1]}", "path set truncated (loop unrolling / path cap): only the explored prefix was looked at")
+            continue
+        if bad:
+            shell["violations"] += 1
+            d = REPLAYS / "C03" / f"runner-{r['backend']}-{abs(hash(json.dumps(r['history']))) % 10**8}"
+            d.mkdir(parents=True, exist_ok=True)
+            (d / "finding.json").write_text(json.dumps(r, indent=1, default=str))
+            rep.violation(f"{r['backend']} runner.sh, invocations {r['history']}: the file the run delivers is not the descriptor's file at the destination: {bad[0]['clause']}", d)
+        else:
+            rep.discharged += 1
+    cov["delivered_file_at_script_level"] = shell
     sys.exit(rep.finish(cov, ENGINE_A_ASSUMPTIONS + [
         "symbolic column/tree NAMES are covered by C18 (CrossHair); here names are the concrete ones of the enumerated terminal forms",
-        "descriptor file name is compared with the literal the runner.sh template delivers (ANALYSIS.root); the runner's behaviour itself is C16"]))
+        "descriptor file name is compared with the literal the runner.sh template delivers (ANALYSIS.root) and with the file the shell model of runner.sh (engine D) delivers on every exit-0 path; the rest of the runner's behaviour is C16"]))
 
 
 if __name__ == "__main__":
